@@ -323,6 +323,25 @@ func extractC02() *lean {
 	}
 	l.def("verifierValidAtArgs", "List String", leanStrList(vaArgs), vaArgs)
 
+	// validatePresentationSigner: the if-conditions, and whether the credential-less branch mentions the expected subject
+	c3 := conds(val, "validatePresentationSigner")
+	l.def("validateSignerConds", "List String", leanStrList(c3), c3)
+	emptyChecked := false
+	if fd := funcDecl(val, "validatePresentationSigner"); fd != nil {
+		ast.Inspect(fd, func(n ast.Node) bool {
+			if i, ok := n.(*ast.IfStmt); ok && strings.Contains(exprFull(i.Cond), "len(presentation.VerifiableCredential) == 0") {
+				ast.Inspect(i.Body, func(m ast.Node) bool {
+					if id, ok := m.(*ast.Ident); ok && id.Name == "expectedCredentialSubjectDID" {
+						emptyChecked = true
+					}
+					return true
+				})
+			}
+			return true
+		})
+	}
+	l.def("emptyVpBranchComparesExpected", "Bool", fmt.Sprint(emptyChecked), emptyChecked)
+
 	// call chains, in source order
 	l.chain("chainHandleTokenRequest", api, "HandleTokenRequest")
 	l.chain("chainS2S", s2s, "handleS2SAccessTokenRequest")
@@ -337,6 +356,7 @@ func extractC02() *lean {
 	l.chain("chainIntrospectPlain", api, "IntrospectAccessToken")
 	l.chain("chainIntrospectExtended", api, "IntrospectAccessTokenExtended")
 	l.chain("chainGetAndDelete", store, "GetAndDelete")
+	l.chain("chainPutIfAbsent", store, "PutIfAbsent")
 
 	// VerifyVP arguments in both flows
 	vpArgs := func(f *ast.File, fn string) []string {
